@@ -1,6 +1,6 @@
 (* Extraction of the executable model and spec to OCaml (ExtrOcamlBasic only:
    bool, option, unit, list, prod, sumbool, sumor map to OCaml's; N/positive/nat stay Coq data). *)
 From Coq Require Import Extraction ExtrOcamlBasic.
-From FatVerif Require Import Model.Base Model.Time Model.Str Model.Slot Spec.Image Spec.Abs Spec.Wf Spec.Tree.
+From FatVerif Require Import Model.Base Model.Time Model.Str Model.Slot Model.Table Model.Fat Spec.Image Spec.Abs Spec.Wf Spec.Regions Spec.Tree.
 Separate Extraction
-  Model.Base Model.Time Model.Str Model.Slot Spec.Image Spec.Abs Spec.Wf Spec.Tree.
+  Model.Base Model.Time Model.Str Model.Slot Model.Table Model.Fat Spec.Image Spec.Abs Spec.Wf Spec.Regions Spec.Tree.
